@@ -106,10 +106,18 @@ func pathsToO(fn *ssa.Function, from, to *ssa.BasicBlock) (paths [][]condEdge, o
 // resolved per path: constant edges of a materialised && / || select or drop the path, anything else becomes the
 // last literal of the path).
 func boolReturnLits(h *ssa.Function, want bool) ([][]Lit, bool) {
-	if h == nil || len(h.Blocks) == 0 || h.Signature.Results().Len() != 1 {
+	if h == nil || h.Signature.Results().Len() != 1 {
 		return nil, false
 	}
-	if b, isB := h.Signature.Results().At(0).Type().Underlying().(*types.Basic); !isB || b.Kind() != types.Bool {
+	return boolResultLits(h, 0, want)
+}
+
+// boolResultLits: boolReturnLits for result idx of a function with several results (the "found" of a lookup helper).
+func boolResultLits(h *ssa.Function, idx int, want bool) ([][]Lit, bool) {
+	if h == nil || len(h.Blocks) == 0 || h.Signature.Results().Len() <= idx {
+		return nil, false
+	}
+	if b, isB := h.Signature.Results().At(idx).Type().Underlying().(*types.Basic); !isB || b.Kind() != types.Bool {
 		return nil, false
 	}
 	var out [][]Lit
@@ -119,7 +127,7 @@ func boolReturnLits(h *ssa.Function, want bool) ([][]Lit, bool) {
 			continue
 		}
 		ret, isRet := b.Instrs[len(b.Instrs)-1].(*ssa.Return)
-		if !isRet || len(ret.Results) != 1 {
+		if !isRet || len(ret.Results) <= idx {
 			continue
 		}
 		paths, orders, ok := pathsToO(h, nil, b)
@@ -129,7 +137,7 @@ func boolReturnLits(h *ssa.Function, want bool) ([][]Lit, bool) {
 			for _, e := range p {
 				lits = append(lits, normLit(e))
 			}
-			v, known := resolveCondOnPath(ret.Results[0], orders[i])
+			v, known := resolveCondOnPath(ret.Results[idx], orders[i])
 			if known >= 0 {
 				if (known == 1) == want {
 					out = append(out, lits)
@@ -796,9 +804,18 @@ func withSubst(c *ssa.Call, f func() string) string {
 	return f()
 }
 
+// nameAlias: values that a rule has shown to stand for another named value (e.g. the decoded copy of a received
+// unit for the unit itself, as far as lengths and positions go) carry that name while the rule runs.
+var nameAlias = map[ssa.Value]string{}
+
 func exprNameD(v ssa.Value, d int) string {
 	if v == nil {
 		return "<nil>"
+	}
+	if len(nameAlias) > 0 {
+		if a, ok := nameAlias[v]; ok && aliasParams {
+			return a
+		}
 	}
 	if d > 25 {
 		return "…"
